@@ -51,8 +51,14 @@ fn hist<T: CellT + std::hash::Hash>(seed: u64, histories: usize, steps: usize, m
         };
         // constructor; one history in four starts from a LARGE array (a long dimension, hundreds to thousands of cells):
         // size-gated code paths ("fast paths" above some length) are invisible on small shapes
-        let large = rng.chance(25);
-        let (nc, nr) = if large {
+        // a few histories per run start from a HUGE array (about 10^5 cells) with spare capacity and begin with the calls
+        // whose cost depends on the number of cells behind the touched line: element-COUNT thresholds of "large array"
+        // paths (2^16 ...) are out of reach of the large histories below
+        let huge = histories >= 100 && h % 97 == 13;
+        let large = huge || rng.chance(25);
+        let (nc, nr) = if huge {
+            (262 + rng.below(70), 262 + rng.below(70))
+        } else if large {
             let a = 13 + rng.below(118);
             // often only a few lines in the other direction, so that histories reach "last line removed" on long lines
             let b = if rng.chance(45) { 1 + rng.below(3) } else { 1 + rng.below((2600 / a).clamp(1, 40)) };
@@ -62,11 +68,26 @@ fn hist<T: CellT + std::hash::Hash>(seed: u64, histories: usize, steps: usize, m
         } else {
             (1 + rng.below(maxdim), 1 + rng.below(maxdim))
         };
-        let maxdim = if large { 140 } else { maxdim };
-        let steps = if large { steps.min(14) } else { steps };
+        let maxdim = if huge { 340 } else if large { 140 } else { maxdim };
+        let steps = if huge { steps.min(4) } else if large { steps.min(14) } else { steps };
         let a = json!({"nc": nc, "nr": nr, "items": fresh(nc * nr, &mut next_id)});
         let r = m.call("from_vec", &a, &[nc, nr], LenMode::True);
         emit(&m, "from_vec", &a, &r, &mut events);
+        if huge {
+            // scripted opening: spare capacity for a line, then a line near the front is removed and its drain partly consumed
+            let script: Vec<(&str, Value)> = if rng.chance(50) {
+                vec![("reserve", json!({"k": nc})), ("remove_row", json!({"index": rng.below(3)})), ("d_next", noarg.clone()),
+                     ("d_next_back", noarg.clone()), ("d_drop", noarg.clone())]
+            } else {
+                vec![("reserve", json!({"k": nr})), ("remove_col", json!({"index": rng.below(3)})), ("d_next_back", noarg.clone()),
+                     ("d_drop", noarg.clone()), ("insert_row", json!({"index": 1, "items": fresh(nc - 1, &mut next_id)}))]
+            };
+            for (op, a) in script {
+                let conc: Vec<usize> = index_args(op, &a).iter().map(|&v| v as usize).collect();
+                let r = m.call(op, &a, &conc, LenMode::True);
+                emit(&m, op, &a, &r, &mut events);
+            }
+        }
         for _ in 0..steps {
             // current dimensions (only readable while no drain is outstanding)
             if !m.handle.is_none() {
@@ -77,7 +98,7 @@ fn hist<T: CellT + std::hash::Hash>(seed: u64, histories: usize, steps: usize, m
                     } else if rng.chance(50) {
                         ("d_drop", json!({"kind": "panic_at", "site": "drop", "k": rng.below(4), "lie": "none"}))
                     } else {
-                        (if rng.chance(50) { "d_fold" } else { "d_rfold" }, json!({"kind": "panic_at", "site": "closure", "k": rng.below(4), "lie": "none"}))
+                        (["d_fold", "d_rfold", "d_for_each"][rng.below(3)], json!({"kind": "panic_at", "site": "closure", "k": rng.below(4), "lie": "none"}))
                     };
                     if f["kind"] == "panic_at" {
                         tdverif::fault::arm(tdverif::fault::Site::parse(f["site"].as_str().unwrap()).unwrap(), f["k"].as_u64().unwrap() as u32);
@@ -93,8 +114,8 @@ fn hist<T: CellT + std::hash::Hash>(seed: u64, histories: usize, steps: usize, m
                     continue;
                 }
                 let op = ["d_next", "d_next_back", "d_len", "d_drop", "d_drop", "d_nth", "d_nth_back", "d_count", "d_last", "d_collect",
-                          "d_rcollect", "d_next", "d_next_back", "d_fold", "d_rfold"][rng.below(15)];
-                if op == "d_nth" || op == "d_nth_back" {
+                          "d_rcollect", "d_next", "d_next_back", "d_fold", "d_rfold", "d_for_each", "d_find"][rng.below(17)];
+                if op == "d_nth" || op == "d_nth_back" || op == "d_find" {
                     let n = rng.below(4);
                     let a = json!({"n": n});
                     let r = m.call(op, &a, &[n], LenMode::True);
